@@ -36,8 +36,9 @@ def build_probes(H, year, items):
             forms = pr.get('forms', [pr['form']])
             variants = []
             if pr.get('kind') == 'switch':
-                v1 = dict(pr['vals']); v1[pr['var']] = float(amount)
-                v2 = dict(pr['vals']); v2[pr['var']] = float(amount) + 0.01
+                lo, hi = (float(amount) - 0.01, float(amount)) if pr.get('at_is_above') else (float(amount), float(amount) + 0.01)
+                v1 = dict(pr['vals']); v1[pr['var']] = lo
+                v2 = dict(pr['vals']); v2[pr['var']] = hi
                 variants = [(v1, pr['below'], 'at'), (v2, pr['above'], 'just above')]
             else:
                 variants = [(dict(pr['vals']), float(amount), 'shows')]
@@ -52,7 +53,7 @@ def probe_coq(p, enums):
     def store(d):
         return gen_forms.clist(['(%s, %s)' % (gen_forms.cstr(k), catalog.pv_of(v, enums)) for k, v in d.items()])
     e = p['expect']
-    exp = '(XVal %s)' % catalog.pv_of(e, enums)
+    exp = 'XUnimpl' if e == 'unimpl' else '(XVal %s)' % catalog.pv_of(e, enums)
     return '(%s, None, %s, %s, %s, %s, %s)' % (gen_forms.cstr(p['form']), gen_forms.cstr(p['line']), store(p['vals']), store(p['inps']),
                                                gen_forms.clist([gen_forms.cstr(f) for f in p['forms']]), exp)
 
@@ -121,7 +122,10 @@ def run(tier, seed):
         for i, p in enumerate(probes):
             ck.count((y, p['item'], p['status'], p['how']), nontrivial=True)
             real = replay_real(H, y, p)
-            real_ok = real[0] == 'val' and sf.same_value(real[1], p['expect'] if not isinstance(p['expect'], float) else round(p['expect'], 2)) \
+            if p['expect'] == 'unimpl':
+                real_ok = real[0] == 'exc' and real[1].startswith('FieldNotImplemented')
+            else:
+              real_ok = real[0] == 'val' and sf.same_value(real[1], p['expect'] if not isinstance(p['expect'], float) else round(p['expect'], 2)) \
                 or (real[0] == 'val' and isinstance(real[1], float) and isinstance(p['expect'], float) and abs(real[1] - p['expect']) < 1e-9)
             if i in bad or not real_ok:
                 ck.violation('C08:%d:%s:%s' % (y, p['item'], p['status']),
